@@ -87,6 +87,7 @@ _RE_STATES = re.compile(r"(\d+) states generated, (\d+) distinct states found")
 _RE_DEPTH = re.compile(r"depth of the complete state graph search is (\d+)")
 _RE_VIOL = re.compile(r"Error: Invariant (\S+) is violated")
 _RE_APROP = re.compile(r"Error: Action property (\S+) is violated")
+_RE_CONSTINV = re.compile(r"Error: The invariant of (\S+) is equal to FALSE")
 _RE_COV = re.compile(r"^<(\w+) line \d+, col \d+ to line \d+, col \d+ of module (\w+)>: (\d+):(\d+)")
 
 
@@ -151,7 +152,7 @@ def run_tlc(
         m = _RE_DEPTH.search(line)
         if m:
             r.depth = int(m.group(1))
-        m = _RE_VIOL.search(line) or _RE_APROP.search(line)
+        m = _RE_VIOL.search(line) or _RE_APROP.search(line) or _RE_CONSTINV.search(line)
         if m:
             r.violated = m.group(1)
         m = _RE_COV.match(line)
